@@ -642,6 +642,13 @@ func (c *VCtx) applyContract(fr *Frame, st *State, cc *ssa.CallCommon, ct *FuncC
 					for _, hn := range own {
 						kept = append(kept, keep{hn, m.obj, c.name("keep", Select(c.heap(st, hn, c.heapSorts[hn]), m.obj))})
 					}
+					for _, is := range m.spec.Inner {
+						if key := "inner:" + m.spec.Type + "." + is.Field; !c.declSet[key] {
+							c.declSet[key] = true
+							okp, why := c.innerDiscipline(m.objT, is)
+							c.staticObl("own.inner."+m.spec.Type+"."+is.Field, "the object behind "+m.spec.Type+"."+is.Field+" is reachable only through this object, and only "+strings.Join(is.From, ", ")+" call "+strings.Join(is.Mutators, " / ")+" on it (syntactic check over the package)", okp, why)
+						}
+					}
 					stt, ok := m.objT.Underlying().(*types.Struct)
 					if !ok {
 						continue
@@ -2150,6 +2157,145 @@ func (c *VCtx) mapFieldPrivate(structT types.Type, field string) (bool, string) 
 		f()
 	}
 	if len(mapVals) == 0 {
+		return false, "the field is never read"
+	}
+	return len(bad) == 0, strings.Join(bad, "; ")
+}
+
+// pkgFunctions lists every function body of a package: functions, methods (also of generic types), closures.
+func (c *VCtx) pkgFunctions(sp *ssa.Package) []*ssa.Function {
+	var out []*ssa.Function
+	seen := map[*ssa.Function]bool{}
+	var add func(fn *ssa.Function)
+	add = func(fn *ssa.Function) {
+		if fn == nil || seen[fn] {
+			return
+		}
+		seen[fn] = true
+		out = append(out, fn)
+		for _, an := range fn.AnonFuncs {
+			add(an)
+		}
+	}
+	for _, m := range sp.Members {
+		switch x := m.(type) {
+		case *ssa.Function:
+			add(x)
+		case *ssa.Type:
+			for _, t := range []types.Type{x.Type(), types.NewPointer(x.Type())} {
+				ms := c.eng.Prog.MethodSets.MethodSet(t)
+				for i := 0; i < ms.Len(); i++ {
+					add(c.eng.Prog.MethodValue(ms.At(i)))
+				}
+			}
+			if n, ok := x.Type().(*types.Named); ok {
+				for i := 0; i < n.NumMethods(); i++ {
+					add(c.eng.Prog.FuncValue(n.Method(i)))
+				}
+			}
+		}
+	}
+	return out
+}
+
+// innerDiscipline decides syntactically that the object stored in a field is a private inner object: the field is
+// only assigned the fresh result of a function of the same package; its loaded value is used only as the receiver
+// of static method calls (or compared with nil); the mutating methods named in the clause are called on it only
+// from the functions named in the clause.
+func (c *VCtx) innerDiscipline(structT types.Type, is InnerSpec) (bool, string) {
+	named, ok := deref0(structT).(*types.Named)
+	if !ok || named.Obj().Pkg() == nil {
+		return false, "not a named struct type"
+	}
+	named = named.Origin()
+	sp := c.eng.SPkgs[named.Obj().Pkg().Path()]
+	if sp == nil {
+		return false, "package not loaded"
+	}
+	var bad []string
+	loads := 0
+	nonDebug := func(v ssa.Value) []ssa.Instruction {
+		var out []ssa.Instruction
+		for _, r := range *v.Referrers() {
+			if _, dbg := r.(*ssa.DebugRef); !dbg {
+				out = append(out, r)
+			}
+		}
+		return out
+	}
+	for _, fn := range c.pkgFunctions(sp) {
+		report := func(in ssa.Instruction, what string) {
+			bad = append(bad, fmt.Sprintf("%s: %s (%s)", FuncKey(fn), what, c.eng.pos(in.Pos())))
+		}
+		for _, b := range fn.Blocks {
+			for _, in := range b.Instrs {
+				var xt types.Type
+				var idx int
+				switch x := in.(type) {
+				case *ssa.Field:
+					xt, idx = x.X.Type(), x.Field
+				case *ssa.FieldAddr:
+					xt, idx = x.X.Type(), x.Field
+				default:
+					continue
+				}
+				n, ok := deref0(xt).(*types.Named)
+				if !ok || n.Origin() != named {
+					continue
+				}
+				stt, ok := n.Underlying().(*types.Struct)
+				if !ok || idx >= stt.NumFields() || stt.Field(idx).Name() != is.Field {
+					continue
+				}
+				fa, isAddr := in.(*ssa.FieldAddr)
+				if !isAddr {
+					report(in, "the struct is copied by value")
+					continue
+				}
+				for _, r := range nonDebug(fa) {
+					switch y := r.(type) {
+					case *ssa.Store:
+						call, isCall := y.Val.(*ssa.Call)
+						if y.Addr != ssa.Value(fa) {
+							report(r, "the address of the field is stored")
+						} else if !isCall || call.Call.StaticCallee() == nil || call.Call.StaticCallee().Pkg != nil && call.Call.StaticCallee().Pkg != sp {
+							report(r, "the field is assigned something other than the fresh result of a constructor of this package")
+						} else if len(nonDebug(call)) != 1 {
+							report(r, "the new inner object is used elsewhere too")
+						}
+					case *ssa.UnOp:
+						loads++
+						for _, u := range nonDebug(y) {
+							switch z := u.(type) {
+							case *ssa.BinOp:
+							case *ssa.Call:
+								callee := z.Call.StaticCallee()
+								if callee == nil || len(z.Call.Args) == 0 || z.Call.Args[0] != ssa.Value(y) || callee.Signature.Recv() == nil {
+									report(u, "the inner object is passed to a call")
+									continue
+								}
+								for i, a := range z.Call.Args {
+									if i > 0 && a == ssa.Value(y) {
+										report(u, "the inner object is passed as an argument")
+									}
+								}
+								for _, mname := range is.Mutators {
+									if strings.SplitN(callee.Name(), "[", 2)[0] == mname && !strings.Contains(" "+strings.Join(is.From, " ")+" ", " "+FuncKey(fn)+" ") {
+										report(u, "calls "+mname+" on the inner object but is not one of the functions allowed to")
+									}
+								}
+							default:
+								report(u, fmt.Sprintf("the inner object is used by %T", u))
+							}
+						}
+					default:
+						report(r, "the address of the field escapes")
+					}
+				}
+			}
+		}
+	}
+	if loads == 0 {
 		return false, "the field is never read"
 	}
 	return len(bad) == 0, strings.Join(bad, "; ")
